@@ -59,6 +59,7 @@ def explore_all(workloads, on_exec, workers=None):
                             a["steps"] += d["summary"]["steps"]
                             a["capped"] = a["capped"] or d["summary"]["capped"]
                             a["max_preemptions_seen"] = max(a["max_preemptions_seen"], d["summary"]["max_preemptions_seen"])
+                            a["divergence_retries"] = a.get("divergence_retries", 0) + d["summary"].get("divergence_retries", 0)
                         else:
                             summaries[w["name"]] = d["summary"]
                     elif "machinery" in d:
